@@ -10,7 +10,7 @@ import random
 from common import Report, Violation, parallel_map, h, run_sentinels
 from gen import Col, Table, lit
 from model import ModelTable, gen_pred
-from sqlcase import RL, ms
+from sqlcase import sql_retry, RL, ms
 
 LAYOUTS = [
     dict(block=32, rowset=150, crc=True, first_key=True),
@@ -124,7 +124,7 @@ def run_history(args):
             elif k == "delete":
                 p = gen_pred(rng, mt.table)
                 sql = f"delete from {mt.table.name} where {p.sql}"
-                r = rl.sql(sql)
+                r = sql_retry(rl, sql)
                 hist.append(sql)
                 if r.get("dead"):
                     res["inconclusive"] = "runner died: " + r["err"][:80]
